@@ -3,6 +3,13 @@
 import json, os, glob
 ROOT = os.path.dirname(os.path.dirname(os.path.abspath(__file__)))
 NOTES = {
+ "C01-h": "missed at first: the positional-field decoders (Range, RangeInclusive, ...) were only instantiated over integers; the matrix now has ranges over ten element types and Box<Option<u8>> / Cell<Option<u8>> as elements (values that encode as null without being Option)",
+ "C04-h": "missed at first by C04 (the no-alloc half of C06 reports it): C04 drove the accessors in the std configuration only; new part C04N: the no-alloc skip accessor on well-formed entries and on strict prefixes",
+ "C08-h": "missed at first: no optional field had a payload type with a nil value of its own, so `Some(nil)` never occurred; new harness type WideNil (nil = the ordinary value 0) as mandatory field and as Option<WideNil>",
+ "C09-h": "inconclusive at first (exit 2): with the change the macros emit code that no longer type-checks for part of the generated population, so none of the derive checks could be built - while definitions with uniform field types compile and are silently permuted; new parts C08B / C09B in g_codec (hand-written wide positional definitions outside the population), and a violation shown by one layer is now reported even if another layer cannot be built",
+ "C15-h": "missed at first: the limit was set once at construction; between two reads (after a dropped future or a surfaced transient error) the walks may now lower it to the largest frame still to come",
+ "C17-h": "missed at first: borrowed strings were only checked as *values*; added a flattened catch-all map and a plain map with &str keys",
+ "C18-h": "missed at first: every Deserializer read one input; `interleaved` now swaps the decoder of a used Deserializer for a second input (re-framed, with a stray break behind it)",
  "C01-g": "missed at first: C01 ran in the std configuration only and the defect sits in the no-alloc variant of `skip` (reached by `Decode for Bound` on `Unbounded` = `[2, []]`); new part C01N (g_cfg): value-driven round trips of all types that exist without alloc in each of the six configurations",
  "C02-g": "missed at first: the new branch is reached by `tag 1 + float >= 2^64` only, which neither mutation of valid `[secs, nanos]` encodings nor the generic item generator produced often enough; new `tagged-numbers` sub-check (registered tags x boundary numbers of every width through every entry point)",
  "C04-g": "missed at first: release-only (the consuming read sits inside a debug_assert!); the harness profile has debug assertions on. Every check now has a *release leg*: the quick-tier amounts once more against harness and library built without debug assertions and with wrapping arithmetic",
